@@ -1707,7 +1707,11 @@ class CodeGenerator(NodeVisitor):
     def visit_Const(self, node: nodes.Const, frame: Frame) -> None:
         val = node.as_const(frame.eval_ctx)
         if isinstance(val, float):
-            self.write(str(val))
+            if val - val == 0:
+                self.write(str(val))
+            else:
+                # inf and nan have no literal
+                self.write(f"float({str(val)!r})")
         else:
             self.write(repr(val))
 
